@@ -79,6 +79,8 @@ pub fn run(c: &Campaign, seed: u64) -> CampaignResult {
             .arg(format!("-max_len={}", c.max_len))
             .arg("-len_control=0")
             .arg("-timeout=25")
+            // runs or 20 minutes, whichever comes first (the evidence reports the runs done)
+            .arg("-max_total_time=1200")
             .arg("-rss_limit_mb=4096")
             .arg("-malloc_limit_mb=512")
             .arg("-print_final_stats=1")
@@ -100,7 +102,17 @@ pub fn run(c: &Campaign, seed: u64) -> CampaignResult {
     let mut inconclusive = None;
     for (dir, child) in children {
         let status = match child {
-            Ok(mut ch) => ch.wait().ok(),
+            Ok(mut ch) => loop {
+                // a running campaign is progress as far as the no-progress watchdog is concerned
+                match ch.try_wait() {
+                    Ok(Some(st)) => break Some(st),
+                    Ok(None) => {
+                        super::runner::heartbeat();
+                        std::thread::sleep(std::time::Duration::from_millis(500));
+                    }
+                    Err(_) => break None,
+                }
+            },
             Err(e) => {
                 inconclusive = Some(format!("cannot start fuzz target: {e}"));
                 None
